@@ -214,6 +214,7 @@ def run(ctx):
 
 
 META = {
+    "claimed": True,
     "level": ("Proved in Lean for all inputs: round trip of every sequence of well-formed typed fields at any offset "
               "(roundtrip), so_far ++ remainder = message after any reads of any bytes, inflate(deflate z) = z for "
               "every integer, RFC 4251 minimality for z != 0 and the empty string for zero. The model is tied to "
